@@ -4,6 +4,7 @@
 #include "common/vf.hpp"
 #include "common/callers.hpp"
 #include <memory>
+#include <algorithm>
 #include <cerrno>
 #include <unistd.h>
 #include <sys/stat.h>
@@ -35,7 +36,9 @@ struct IniGen {
     std::map<std::string, std::string> cur;                       // value in effect per full name
     std::vector<std::string> names;                               // defined full names, in order
     std::string section;
-    int nrefs = 0, nsections = 0, nnested = 0, nenv = 0;
+    int nrefs = 0, nsections = 0, nnested = 0, nenv = 0, nundef = 0;
+    bool has_undef = false;                                       // the value being generated contains an undefined reference
+    std::map<size_t, std::string> alt;                            // entry index -> the other acceptable value (undefined references dropped)
     IniGen(Src &s_, char sep_) : s(s_), sep(sep_) {}
 
     std::string text_piece() {
@@ -49,7 +52,13 @@ struct IniGen {
         std::string src, val;
         int parts = (int)s.range(0, 4);
         for (int i = 0; i < parts; i++) {
-            int k = (int)s.pick({5, names.empty() ? 0 : 4, 1, 1, names.size() < 2 ? 0 : 1});
+            int k = (int)s.pick({5, names.empty() ? 0 : 4, 1, 1, names.size() < 2 ? 0 : 1, 1});
+            if (k == 5) {
+                // a reference to a name that has no value (and never gets one): what becomes of it is not
+                // documented - kept literally (observed) or dropped - but the references around it on the
+                // same line still have to be replaced
+                std::string u = "${undef_" + ident(s, 3) + "}"; src += u; val += u; nundef++; has_undef = true; continue;
+            }
             if (k == 0) { std::string t = text_piece(); src += t; val += t; }
             else if (k == 1) { const std::string &n = names[s.range(0, (long)names.size() - 1)]; src += "${" + n + "}"; val += cur[n]; nrefs++; }
             else if (k == 2) { src += "${%VF_SET_ENV}"; val += "env value-1"; nenv++; }
@@ -77,6 +86,7 @@ struct IniGen {
             } else if (k == 3) {
                 std::string key = ident(s);
                 if (s.chance(1, 6) && !names.empty()) { const std::string &f = names[s.range(0, (long)names.size() - 1)]; size_t dot = f.rfind('.'); std::string base = dot == std::string::npos ? f : f.substr(dot + 1); if (!base.empty()) key = base; }   // redefinition
+                has_undef = false;
                 auto v = gen_value();
                 std::string src = v.first, val = v.second;
                 // the stored value is the trimmed expansion; keep the source free of blanks that would
@@ -87,10 +97,20 @@ struct IniGen {
                 // expanding a reference to a value with leading/trailing blanks inside other text keeps them: recompute
                 { std::string re; std::string t = src; size_t p = 0; re.clear();
                   while (p < t.size()) { if (t.compare(p, 2, "${") == 0) { size_t depth = 0, q = p; for (; q < t.size(); q++) { if (t.compare(q, 2, "${") == 0) { depth++; q++; } else if (t[q] == '}') { if (--depth == 0) break; } } std::string inner = t.substr(p + 2, q - p - 2);
-                        std::string rv; if (inner.compare(0, 2, "${") == 0) { std::string n2 = inner.substr(2, inner.size() - 3); rv = cur[cur[n2]]; } else if (inner == "%VF_SET_ENV") rv = "env value-1"; else if (inner == "%VF_UNSET_ENV") rv = ""; else rv = cur[inner];
+                        std::string rv; if (inner.compare(0, 2, "${") == 0) { std::string n2 = inner.substr(2, inner.size() - 3); rv = cur[cur[n2]]; } else if (inner == "%VF_SET_ENV") rv = "env value-1"; else if (inner == "%VF_UNSET_ENV") rv = ""; else if (inner.compare(0, 6, "undef_") == 0) rv = "${" + inner + "}"; else rv = cur[inner];
                         re += rv; p = q + 1; } else re.push_back(t[p++]); }
                   val = re; }
                 doc += pad(s) + key + pad(s) + std::string(1, sep) + pad(s) + src + pad(s) + "\n";
+                if (has_undef) {
+                    // not referenced later (its stored text is not pinned down); both outcomes for the undefined references are accepted
+                    std::string dropped; for (size_t p2 = 0; p2 < val.size();) { if (val.compare(p2, 8, "${undef_") == 0) { size_t q2 = val.find('}', p2); p2 = q2 + 1; } else dropped.push_back(val[p2++]); }
+                    alt[expect.size()] = trim(dropped);
+                    expect.push_back({section.empty() ? key : section + "." + key, val});
+                    cur.erase(section.empty() ? key : section + "." + key);
+                    { const std::string full = section.empty() ? key : section + "." + key; names.erase(std::remove(names.begin(), names.end(), full), names.end()); }
+                    has_undef = false;
+                    continue;
+                }
                 define(section.empty() ? key : section + "." + key, val);
             } else if (k == 5) {
                 // "pointer" key: its whole value is the name of another defined key (target of ${${ptr}})
@@ -137,7 +157,9 @@ Job gen_ini(Src &s, Ctx &c, bool *nontriv) {
     *nontriv = g.nsections > 0 && g.nrefs > 0;
     c.tag(usefile ? "ini_file" : "ini_string"); if (g.nnested) c.tag("ini_nested_reference"); if (nincl) c.tag("ini_with_include");
     std::vector<std::pair<std::string, std::string>> expect = g.expect;
-    return [usefile, mainpath, doc, sep, expect](Ctx &c) {
+    std::map<size_t, std::string> alt = g.alt;
+    if (g.nundef) c.tag("ini_with_undefined_reference");
+    return [usefile, mainpath, doc, sep, expect, alt](Ctx &c) {
         qlisttbl_t *t;
         if (usefile) t = qconfig_parse_file(nullptr, mainpath.c_str(), sep);
         else { char *b = new char[doc.size() + 1]; memcpy(b, doc.c_str(), doc.size() + 1); t = qconfig_parse_str(nullptr, b, sep); delete[] b; }
@@ -148,6 +170,8 @@ Job gen_ini(Src &s, Ctx &c, bool *nontriv) {
             if (i >= expect.size()) c.fail(FUNC, "conf:ini-extra", "parser delivered more than the %zu entries written (extra: %s=%s)", expect.size(), hexs(o->name, strlen(o->name)).c_str(), hexs(o->data, o->size).c_str());
             const auto &e = expect[i];
             if (e.first != o->name) c.fail(FUNC, "conf:ini-name", "entry %zu is named %s, the file says %s", i, hexs(o->name, strlen(o->name)).c_str(), hexs(e.first).c_str());
+            auto al = alt.find(i);
+            if (al != alt.end() && o->size == al->second.size() + 1 && memcmp(o->data, al->second.c_str(), o->size) == 0) continue;
             if (o->size != e.second.size() + 1 || memcmp(o->data, e.second.c_str(), o->size) != 0) c.fail(FUNC, "conf:ini-value", "entry %zu (%s) has value %s, the file says %s", i, hexs(e.first).c_str(), hexs(o->data, o->size, 60).c_str(), hexs(e.second, 60).c_str());
         }
         if (i != expect.size()) c.fail(FUNC, "conf:ini-missing", "parser delivered %zu of the %zu entries written (first missing: %s)", i, expect.size(), hexs(expect[i].first).c_str());
